@@ -92,6 +92,7 @@ func listOps() []*opDef {
 		{name: "movingWindowRemove(w->w.size()>2)", src: "a.movingWindowRemove(w->w.size()>2)", applies: isFlat, model: okm(mMovingWindowRemove)},
 		{name: "combine((x,y)->[x,y])", src: "a.combine((x,y)->[x,y])", applies: isFlat, model: okm(mCombinePairs)},
 		{name: "map(e->[e,e+1])", src: "a.map(e->[e,e+1])", applies: isFlat, model: okm(mMapPair)},
+		{name: "combineN(2,w->w)", src: "a.combineN(p,w->w)", applies: isFlat, args: constArgs(value.Int(2), value.Int(0)), model: okm(func(a *mval) *mval { return mWindows(a, 2) })},
 		// consumers: full, partial or no iteration; the result is a scalar, the operand itself or an element
 		{name: "eval()", src: "a.eval()", res: rSame, model: okm(func(a *mval) *mval { return a })},
 		{name: "first()", src: "a.first()", res: rSame, model: at(0)},
